@@ -32,6 +32,7 @@ struct SocketTlsImpl final : public SocketImpl
   int lastError = SSL_ERROR_NONE;  ///< OpenSSL error cache
   std::string_view pendingSend;  ///< Buffer view to verify OpenSSL_write retry requirements
   Duration remainingTime;  ///< Use-case dependent timeout
+  TimePoint deadline;  ///< End of a limited timeout (so that rounding the remaining time after each step does not add up)
   bool isReadable = false;  ///< Flag whether Driver has deemed us readable
   bool isWritable = false;  ///< Flag whether Driver has deemed us writable
   bool driverSendSuppressed = false;  ///< Flag whether Driver send polling was suppressed
@@ -61,6 +62,8 @@ struct SocketTlsImpl final : public SocketImpl
                   size_t size) override;
 
   void Connect(SockAddrView const &connectAddr) override;
+
+  void SetTimeout(Duration timeout);
 
   void DriverQuery(short &events) override;
   void DriverPending() override;
